@@ -148,13 +148,13 @@ add("wrap_deflate::w_compress_to_vec", ["C01"],
 # ----------------------------------------------------------------- E tier, compressor level 0
 COMP_FUNCS = ["deflate::core::compress", "compress_inner", "compress_stored", "flush_block", "flush_output_buffer", "OutputBufferOxide::*",
               "CallbackBuf::flush_output", "zlib::header_from_flags", "update_adler32"]
-for (hn, tier, z, n) in [("e_comp0_raw_n2", "quick", False, 2), ("e_comp0_zlib_n1", "quick", True, 1), ("e_comp0_raw_n0", "thorough", False, 0), ("e_comp0_zlib_n3", "thorough", True, 3)]:
+for (hn, tier, z, n) in [("e_comp0_raw_n2", "quick", False, 2), ("e_comp0_zlib_n1", "thorough", True, 1), ("e_comp0_raw_n0", "thorough", False, 0), ("e_comp0_zlib_n3", "thorough", True, 3)]:
     add("e_comp::" + hn, ["C01", "C02", "C09", "C10", "C14", "C15", "C16"],
         "real compress() at level 0, one Finish call: Done, all input consumed, output = one valid stored stream (reference stored decoder) that decodes to the input, exactly one final block, "
         "only stored blocks; " + ("header valid with CINFO 7, trailer = big-endian Adler-32 of the input, adler32() = reference Adler-32; " if z else "") +
         "size = n+5(+6) <= mz_deflateBound(n); after Done every further call => BadParam (0,0)",
         "%s, %d symbolic input bytes, 24-byte output buffer, nothing stubbed" % ("zlib" if z else "raw", n),
-        kind="E", tier=tier, timeout=1800, mem_gb=24, heavy=True, functions=COMP_FUNCS)
+        kind="E", tier=tier, timeout=1800, mem_gb=24, heavy=True, functions=COMP_FUNCS, quick_for=["C01", "C15"])
 
 # ----------------------------------------------------------------- C16 / C18 / C19
 add("misc::e_adler_n2_anystart", ["C16"],
@@ -212,14 +212,14 @@ for hn in ["s_bad_param_start_l0", "s_bad_param_start_l3", "s_bad_param_block_he
         heavy=hn not in ("s_bad_param_raw_memcpy_l6", "s_bad_param_decode_litlen_l7", "s_bad_param_failed_l1", "s_bad_param_done_l4"),
         functions=["inflate::core::decompress_with_limit (parameter check)"], stubs=CUT_STUBS_R)
 
-for (hn, tier, desc) in [("w_inflate_c_none_2_2", "quick", "flush None, 2 input bytes, 2 output bytes"), ("w_inflate_c_finish_2_1", "thorough", "first-call Finish, 2 input bytes, 1 output byte"),
+for (hn, tier, desc) in [("w_inflate_c_none_2_2", "thorough", "flush None, 2 input bytes, 2 output bytes"), ("w_inflate_c_finish_2_1", "thorough", "first-call Finish, 2 input bytes, 1 output byte"),
                          ("w_inflate_c_sync_0_2", "thorough", "flush Sync, empty input, 2 output bytes")]:
     add("wrap_inflate::" + hn, ["C13", "C09"] if "full" not in hn else ["C13"],
         "real inflate(), first call, any core behaviour within D1-D7 (" + desc + "): counts <= offered; delivered bytes = next plaintext bytes; StreamEnd <=> core done and all delivered; "
         "progress; Full => Stream error with nothing changed; format -> decoder flags (zlib parsed iff zlib formats, checksum ignored iff not Zlib, HAS_MORE_INPUT iff not Finish)",
         "3 data formats (symbolic), sizes/flush fixed as named, core produces <= 2 bytes", kind="W", tier=tier, timeout=1800, mem_gb=30, heavy=True,
         functions=INFL_FUNCS, stubs=[DSTUB], assumes=D_ASSUME, stubs_change_behaviour=True)
-for (hn, tier, desc) in [("e_comp0_sync_raw_1_1", "quick", "raw, 1 byte + Sync, then 1 byte + Finish"), ("e_comp0_full_zlib_1_1", "quick", "zlib, 1 byte + Full, then 1 byte + Finish"),
+for (hn, tier, desc) in [("e_comp0_sync_raw_1_1", "thorough", "raw, 1 byte + Sync, then 1 byte + Finish"), ("e_comp0_full_zlib_1_1", "thorough", "zlib, 1 byte + Full, then 1 byte + Finish"),
                          ("e_comp0_sync_zlib_0_1", "thorough", "zlib, Sync before any input, then 1 byte + Finish"), ("e_comp0_none_then_finish_raw_2_0", "thorough", "raw, 2 bytes with no flush, then Finish")]:
     add("e_comp::" + hn, ["C12", "C02", "C09", "C14"],
         "real compress() at level 0, two calls (" + desc + "): after the flush call (all input consumed, space to spare) the bytes so far decode with an independent stored decoder to "
@@ -244,7 +244,7 @@ add("wrap_deflate::w_compress_tail", ["C12", "C02"],
     "levels 1..2, raw; dictionary size 0..=32768 and look-ahead 0..=2 symbolic, all 8 flush modes; back ends / flush_block marker stubs; slice::fill modelled as whole-array assignment",
     kind="W", timeout=900, mem_gb=16, functions=["deflate::core::compress", "compress_inner", "flush_output_buffer"],
     stubs=MARKERS + ["fill -> fill_model"], assumes=["<[T]>::fill on the 32 K-element arrays = whole-array assignment (model stub)"])
-for (hn, tier, desc) in [("w_inflate_c2_finish_finish", "quick", "Finish(2 in,1 out) then Finish(1 in,2 out)"), ("w_inflate_c2_none_none", "thorough", "None(1,1) then None(1,2)"),
+for (hn, tier, desc) in [("w_inflate_c2_finish_finish", "thorough", "Finish(2 in,1 out) then Finish(1 in,2 out)"), ("w_inflate_c2_none_none", "thorough", "None(1,1) then None(1,2)"),
                          ("w_inflate_c2_none_finish", "thorough", "None(2,1) then Finish(0,2)")]:
     add("wrap_inflate::" + hn, ["C13"],
         "real inflate(), two calls (" + desc + "), any core behaviour within D1-D7: all per-call clauses plus the history-dependent ones: data errors and the Finish buffer error are sticky, "
@@ -253,7 +253,7 @@ for (hn, tier, desc) in [("w_inflate_c2_finish_finish", "quick", "Finish(2 in,1 
         "3 data formats symbolic; sizes and flush values concrete as named; core produces <= 2 bytes per call", kind="W", tier=tier, timeout=2400, mem_gb=40, heavy=True,
         functions=INFL_FUNCS, stubs=[DSTUB], assumes=D_ASSUME, stubs_change_behaviour=True)
 
-for (hn, tier, desc) in [("w_inflate_step_early_ofs0", "quick", "window offset 0"), ("w_inflate_step_early_wrap", "thorough", "window offset 32766 (hand-off wraps at 32 KiB)")]:
+for (hn, tier, desc) in [("w_inflate_step_early_ofs0", "thorough", "window offset 0"), ("w_inflate_step_early_wrap", "thorough", "window offset 32766 (hand-off wraps at 32 KiB)")]:
     add("wrap_inflate::" + hn, ["C13"],
         "inductive step of the real inflate() for every branch that must not reach the core, from an ARBITRARY wrapper state (" + desc + "): Full => stream error, state untouched; failed stream => "
         "sticky Data error (Buf after a truncated Finish), nothing consumed/written; non-Finish after Finish => stream error; pending window bytes handed out first, in order, "
@@ -261,6 +261,16 @@ for (hn, tier, desc) in [("w_inflate_step_early_ofs0", "quick", "window offset 0
         "all protocol fields symbolic (flags, last status -4..2, format), pending 0..=2 symbolic bytes, input 0..=2, output 0..=3, 4 flush values; invariant: fresh state has nothing pending, pending bytes inside the ring",
         kind="W", tier=tier, timeout=2400, mem_gb=30, heavy=True, functions=INFL_FUNCS, stubs=[DSTUB],
         assumes=["wrapper invariant: first_call => nothing pending and not flushed; dict_ofs + dict_avail <= 32768"], stubs_change_behaviour=True)
+
+add("wrap_inflate::w_inflate_step_full", ["C13"],
+    "inductive step of the real inflate() from an ARBITRARY wrapper state for a full-flush request: stream error, nothing consumed or written, every protocol field and the output untouched, the core never called",
+    "all protocol fields symbolic (first_call, has_flushed, last status -4..2, format, window offset < 32768, pending count), input 0..=2, output 0..=3",
+    kind="W", timeout=600, mem_gb=16, functions=INFL_FUNCS, stubs=[DSTUB], stubs_change_behaviour=True)
+add("wrap_deflate::w_compress_tail_zlib", ["C12", "C02"],
+    "as w_compress_tail for a zlib compressor at levels 2..4 (lazy parsing back end): final flush_block exactly for a flush request with empty look-ahead; Finish => finished; Full => dictionary size 0, hash chains cleared",
+    "levels 2..4, zlib; dictionary size 0..=32768 and look-ahead 0..=2 symbolic, all 8 flush modes", kind="W", timeout=900, mem_gb=16,
+    functions=["deflate::core::compress", "compress_inner", "flush_output_buffer"], stubs=MARKERS + ["fill -> fill_model"],
+    assumes=["<[T]>::fill on the 32 K-element arrays = whole-array assignment (model stub)"])
 
 
 def all_harnesses():
